@@ -20,7 +20,6 @@ bad=0
 sort $out | while IFS='|' read n nv props fail; do
   exp=""; ok=1
   case $n in
-    R-aol2-2) exp="limit(see mutants/refac/KNOWN_LIMITS.md)";;
     S*|R-*|P-*) [ "$nv" != 0 ] && ok=0; exp="silent";;
     F*) [ "$nv" = 0 ] && ok=0; exp="regression";;
     C*-*m*) p=${n%%-*}; exp="fires($p)"; echo "$props" | grep -q "$p" || { [ -d seeded/$n ] && [ "$nv" != 0 ] || ok=0; };;
